@@ -1,6 +1,7 @@
 package harness
 
 import (
+	"os"
 	"sync"
 	"sync/atomic"
 
@@ -47,6 +48,15 @@ func InitLogging() {
 	logOnce.Do(func() {
 		cfg := zap.NewProductionConfig()
 		logger := zap.New(countingCore{})
+		if os.Getenv("VERIF_CORE_LOG") != "" {
+			// debugging aid: the core logs to stderr
+			cfg.Level = zap.NewAtomicLevelAt(zapcore.InfoLevel)
+			cfg.Encoding = "console"
+			if l, err := cfg.Build(); err == nil {
+				logger = l
+				LogConfig = map[string]string{"log.level": "INFO"}
+			}
+		}
 		log.InitializeLogger(logger, &cfg)
 		log.UpdateLoggingConfig(LogConfig)
 	})
